@@ -5,6 +5,7 @@ import random
 
 import dataflow
 import gen_dataflow
+import p_c10
 import oracle_dataflow as od
 import runner
 from framework import Outcome
@@ -61,11 +62,18 @@ class C15:
             "Oracle per plan: run completes; exactly one error tick at each throwing cycle carrying the thrown message, none otherwise; every "
             "stream of a node that is not a dataflow descendant of a failing node is identical to the fault-free run; the whole run equals the "
             "reference interpreter with the same fault plan (later cycles evaluate normally; scheduler re-arm after a captured error). "
+            "A quarter of the runs are keyed maps instead: exception_time_series over map_ whose child throws on a magic element, alone or "
+            "below a self-scheduling node with a timer pending in the throwing cycle; oracle: error ticks under the failing key only, at the "
+            "throwing cycle, with the message; every key's stream equals that key's solo reference (later cycles evaluate normally). "
             "evaluations = injected runs; non-trivial = a planned fault fired; distinct = distinct (program, plan)")
     exhaustive_note = "per capturing target with <= 5 evaluations the subset enumeration is complete; programs and larger subsets are sampled"
     assumptions = ["the failing node's own ordinary output in a throwing cycle is unspecified (documented): the vocabulary throws before writing"]
 
     def gen(self, seed):
+        if random.Random(seed ^ 0x15C15).random() < 0.25:
+            # keyed map: exception_time_series over map_ with a child that throws on a magic element (alone, or below a
+            # self-scheduling node whose timer is pending in the throwing cycle); oracle: per-key solo reference
+            return dict(kind="map", inner=p_c10.PROPERTY.gen(seed, funcs=p_c10.FAILING))
         rng = random.Random(seed)
         prog = gen_dataflow.gen_program(rng.getrandbits(48), size=rng.randint(3, 14), allow=dict(how=("inline", "nested"), ite=rng.random() < 0.4))
         s, e = prog["window"]
@@ -75,7 +83,7 @@ class C15:
         rid = 800
         rng.shuffle(cands)
         for n in cands[:rng.choice((1, 1, 2))]:
-            prog["sinks"].append(dict(kind="err", id=rid, port=n["name"]))
+            prog["sinks"].append(dict(kind="err", id=rid, port=n["name"], depth=rng.choice((1, 1, 2, 3)), values=rng.choice((0, 0, 1))))
             targets.append(dict(id=n["id"], errid=rid, name=n["name"], kind="err"))
             rid += 1
         if rng.random() < 0.5 or not targets:
@@ -95,6 +103,14 @@ class C15:
         return p, text, res
 
     def run(self, case, fresh=False):
+        if case.get("kind") == "map":
+            p_c10.PROPERTY.san = self.san
+            out = p_c10.PROPERTY.run(case["inner"], fresh)
+            if out.violation:
+                out.violation = dict(out.violation, clause="keyed_map:" + out.violation["clause"])
+            if out.stats is not None:
+                out.stats = dict(out.stats, keyed_map_runs=1)
+            return out
         prog = dataflow.normalise(case["prog"])
         names = {n["name"] for n in prog["nodes"]}
         sink_ids = {s["id"] for s in prog["sinks"]}
@@ -224,6 +240,10 @@ class C15:
                        sample=sample, shape=runner.h64(dataflow.shape_key(prog), len(plans)))
 
     def shrink(self, case):
+        if case.get("kind") == "map":
+            for q in p_c10.PROPERTY.shrink(case["inner"]):
+                yield dict(kind="map", inner=q)
+            return
         if case.get("plans") is None or len(case["plans"]) > 1:
             base = self.run(case)
             if base.violation and isinstance(base.sample, dict) and "plan" in base.sample:
